@@ -31,6 +31,7 @@ var pinnedJSON []byte
 
 type FuncFP struct {
 	Params  []string `json:"params,omitempty"` // parameter names (without receiver) of the pinned tree
+	PTypes  []string `json:"ptypes,omitempty"` // their types
 	Sig     string   `json:"sig"`
 	Callees []string `json:"callees"`
 	N       int      `json:"n"`             // number of SSA instructions
@@ -248,6 +249,7 @@ func funcFP(fn *ssa.Function) FuncFP {
 	}
 	for k := 0; k < sig.Params().Len(); k++ {
 		fp.Params = append(fp.Params, sig.Params().At(k).Name())
+		fp.PTypes = append(fp.PTypes, typeStr(sig.Params().At(k).Type()))
 	}
 	fp.Sig = typeStr(types.NewSignatureType(nil, nil, nil, sig.Params(), sig.Results(), sig.Variadic()))
 	set := map[string]bool{}
@@ -696,4 +698,237 @@ func looseType(t string) string {
 	t = strings.ReplaceAll(t, "<-chan ", "chan ")
 	t = strings.ReplaceAll(t, "chan<- ", "chan ")
 	return t
+}
+
+// ---- parameter lists that changed ----
+//
+// Rules address parameters of anchored functions (and arguments of calls to them) by their
+// position in the pinned tree. When a parameter was added, removed or moved (a context
+// threaded through, a metrics handle added), pinnedParamMap re-establishes which current
+// parameter plays the role of pinned parameter j: the one of the same type with the same
+// name; failing that, the one with the same ordinal among the parameters of that type when
+// both lists have equally many of that type.
+
+type paramMap struct {
+	idx    []int // pinned index (receiver excluded) -> current index, -1 if gone
+	extras []int // current parameters that play no pinned role
+}
+
+var (
+	paramMapMu sync.Mutex
+	paramMaps  = map[*types.Func]*paramMap{}
+)
+
+// pinnedParamMap returns nil when f is not pinned or its parameter list is unchanged
+// (up to renames).
+func pinnedParamMap(f *types.Func) *paramMap {
+	if f == nil || !isModObj(f) {
+		return nil
+	}
+	paramMapMu.Lock()
+	defer paramMapMu.Unlock()
+	if m, ok := paramMaps[f]; ok {
+		return m
+	}
+	var m *paramMap
+	defer func() { paramMaps[f] = m }()
+	pn := pinnedTable()
+	if pn.Pkgs == nil {
+		return nil
+	}
+	pp := pn.Pkgs[Rel(f.Pkg().Path())]
+	if pp == nil {
+		return nil
+	}
+	sig, _ := f.Type().(*types.Signature)
+	if sig == nil {
+		return nil
+	}
+	var pnames, ptypes []string
+	if fp, ok := pp.Funcs[canonFuncKey(f)]; ok && len(fp.PTypes) == len(fp.Params) {
+		pnames, ptypes = fp.Params, fp.PTypes
+	} else if names, ok := pp.Ifaces[ifaceMethodKey(f)]; ok {
+		pnames = names // interface methods: names only
+	} else {
+		return nil
+	}
+	n := sig.Params().Len()
+	cn := make([]string, n)
+	ct := make([]string, n)
+	for k := 0; k < n; k++ {
+		cn[k] = sig.Params().At(k).Name()
+		ct[k] = typeStr(sig.Params().At(k).Type())
+	}
+	if ptypes == nil {
+		if len(pnames) == n {
+			return nil
+		}
+		m = &paramMap{}
+		used := map[int]bool{}
+		for _, name := range pnames {
+			at := -1
+			for k := range cn {
+				if !used[k] && cn[k] == name {
+					at = k
+					break
+				}
+			}
+			if at >= 0 {
+				used[at] = true
+			}
+			m.idx = append(m.idx, at)
+		}
+		for k := range cn {
+			if !used[k] {
+				m.extras = append(m.extras, k)
+			}
+		}
+		return m
+	}
+	same := len(ptypes) == n
+	for k := 0; same && k < n; k++ {
+		if ptypes[k] != ct[k] {
+			same = false
+		}
+	}
+	if same {
+		return nil
+	}
+	m = &paramMap{idx: make([]int, len(ptypes))}
+	used := map[int]bool{}
+	for j := range ptypes {
+		m.idx[j] = -1
+		for k := range ct {
+			if !used[k] && ct[k] == ptypes[j] && cn[k] == pnames[j] {
+				m.idx[j] = k
+				used[k] = true
+				break
+			}
+		}
+	}
+	count := func(xs []string, t string) int {
+		c := 0
+		for _, x := range xs {
+			if x == t {
+				c++
+			}
+		}
+		return c
+	}
+	for j := range ptypes {
+		if m.idx[j] >= 0 || count(ptypes, ptypes[j]) != count(ct, ptypes[j]) {
+			continue
+		}
+		ord := 0
+		for i := 0; i < j; i++ {
+			if ptypes[i] == ptypes[j] {
+				ord++
+			}
+		}
+		seen := 0
+		for k := range ct {
+			if ct[k] != ptypes[j] {
+				continue
+			}
+			if seen == ord && !used[k] {
+				m.idx[j] = k
+				used[k] = true
+			}
+			seen++
+		}
+	}
+	for k := range ct {
+		if !used[k] {
+			m.extras = append(m.extras, k)
+		}
+	}
+	return m
+}
+
+// ifaceMethodKey: "I.Method" for a method declared by an interface of the module.
+func ifaceMethodKey(f *types.Func) string {
+	sig, _ := f.Type().(*types.Signature)
+	if sig == nil || sig.Recv() == nil {
+		return ""
+	}
+	t := sig.Recv().Type()
+	if p, ok := t.(*types.Pointer); ok {
+		t = p.Elem()
+	}
+	if n, ok := t.(*types.Named); ok {
+		if _, isI := n.Underlying().(*types.Interface); isI {
+			return objName(n.Obj()) + "." + objName(f)
+		}
+	}
+	return ""
+}
+
+// ParamAt: the parameter of fn that plays the role of parameter i (receiver first) of the
+// pinned tree; nil when that role no longer exists.
+func ParamAt(fn *ssa.Function, i int) *ssa.Parameter {
+	if fn == nil || i < 0 {
+		return nil
+	}
+	off := 0
+	if fn.Signature.Recv() != nil {
+		off = 1
+	}
+	var m *paramMap
+	if obj, ok := fn.Object().(*types.Func); ok && fn.Parent() == nil {
+		m = pinnedParamMap(obj)
+	}
+	if m == nil || i < off {
+		if i < len(fn.Params) {
+			return fn.Params[i]
+		}
+		return nil
+	}
+	j := i - off
+	if j < len(m.idx) {
+		if k := m.idx[j]; k >= 0 && off+k < len(fn.Params) {
+			return fn.Params[off+k]
+		}
+		return nil
+	}
+	if e := j - len(m.idx); e < len(m.extras) && off+m.extras[e] < len(fn.Params) {
+		return fn.Params[off+m.extras[e]]
+	}
+	return nil
+}
+
+// PArgs: cc.Args in the order of the pinned parameter list of the callee (receiver first for
+// static method calls, without the receiver for interface calls — like cc.Args); arguments
+// of added parameters follow, a removed parameter yields nil.
+func PArgs(cc *ssa.CallCommon) []ssa.Value {
+	if cc == nil {
+		return nil
+	}
+	var obj *types.Func
+	off := 0
+	if cc.IsInvoke() {
+		obj = cc.Method
+	} else if f := cc.StaticCallee(); f != nil && f.Parent() == nil {
+		obj, _ = f.Object().(*types.Func)
+		if f.Signature.Recv() != nil {
+			off = 1
+		}
+	}
+	m := pinnedParamMap(obj)
+	if m == nil {
+		return cc.Args
+	}
+	out := append([]ssa.Value{}, cc.Args[:off]...)
+	for _, k := range m.idx {
+		if k >= 0 && off+k < len(cc.Args) {
+			out = append(out, cc.Args[off+k])
+		} else {
+			out = append(out, nil)
+		}
+	}
+	for _, k := range m.extras {
+		if off+k < len(cc.Args) {
+			out = append(out, cc.Args[off+k])
+		}
+	}
+	return out
 }
